@@ -211,6 +211,13 @@ pub enum Kind {
     /// packets, final-mark pause, line-reusing allocation burst, full collection); see
     /// `Child::satb_execution`
     Satb,
+    /// C12 with two mutators: one concurrent marking cycle as in `Satb`, but the program
+    /// (`Job::prog`, see `SATB2_OPS`) is split between mutator 0 (the controller) and mutator 1 (a
+    /// second baton thread with its own `Mutator`, i.e. its own SATB barrier and buffers); both write
+    /// reference fields of the same unlogged snapshot object A through the real pre-write barrier
+    /// while the marking packets run; optionally mutator 1 is destroyed at the end of its program;
+    /// see `Child::satb2_execution`
+    Satb2,
     /// a GC request and a fork request in flight together: a second thread plays mutator 0 and
     /// makes one forced user collection request while the controller (the VM's forking thread)
     /// calls `prepare_to_fork`; both start at quiescence, so the fork request lands before / while
@@ -229,6 +236,7 @@ impl Kind {
             Kind::Race { racers } => format!("race{}", racers),
             Kind::Req2 => "req2".into(),
             Kind::Satb => "satb".into(),
+            Kind::Satb2 => "satb2".into(),
             Kind::Forkreq => "forkreq".into(),
         }
     }
@@ -244,6 +252,7 @@ impl Kind {
             "race3" => Kind::Race { racers: 3 },
             "req2" => Kind::Req2,
             "satb" => Kind::Satb,
+            "satb2" => Kind::Satb2,
             "forkreq" => Kind::Forkreq,
             other => machinery_failure(&format!("unknown scheduler scenario {}", other)),
         }
@@ -272,6 +281,7 @@ impl Kind {
             Kind::Race { .. } => 1,
             Kind::Req2 => 2,
             Kind::Satb => 0,
+            Kind::Satb2 => 0,
             Kind::Forkreq => 2,
         }
     }
@@ -292,7 +302,9 @@ pub struct Job {
     /// spurious condition-variable wake-ups the strategy may inject per execution (each costs a
     /// preemption)
     pub spurious: u32,
-    /// `Kind::Satb`: the mutator program (op codes, see `SATB_OPS`)
+    /// `Kind::Satb`: the mutator program (op codes, see `SATB_OPS`); `Kind::Satb2`: the programs of
+    /// both mutators (`16 * mutator + op code`, see `SATB2_OPS`; the order between ops of different
+    /// mutators has no meaning)
     pub prog: Vec<u8>,
 }
 
@@ -303,6 +315,10 @@ impl Job {
             v["prog"] = json!(self.prog);
             v["prog_text"] = json!(satb_prog_name(&self.prog));
         }
+        if self.kind == Kind::Satb2 {
+            v["prog"] = json!(self.prog);
+            v["prog_text"] = json!(satb2_prog_name(&self.prog));
+        }
         v
     }
     pub fn from_json(v: &Value) -> Job {
@@ -311,6 +327,9 @@ impl Job {
     pub fn name(&self) -> String {
         if self.kind == Kind::Satb {
             return format!("satb/{}", satb_prog_name(&self.prog));
+        }
+        if self.kind == Kind::Satb2 {
+            return format!("satb2/{}", satb2_prog_name(&self.prog));
         }
         format!("{}/{}{}{}", self.kind.name(), self.pattern.name(), if self.via_worker { "/local" } else { "" }, if self.spurious > 0 { "/spurious" } else { "" })
     }
@@ -451,6 +470,137 @@ pub fn satb_programs(max: usize) -> Vec<Vec<u8>> {
         frontier = next;
     }
     out
+}
+
+// ---------------------------------------------------------------------------------------------
+// C12: two mutators writing fields of the same object during concurrent marking (scenario `satb2`)
+
+/// The graph at the start of marking is root0 -> A, A.f -> B -> C, A.g -> G (B, C, G reachable only
+/// through A).  Every op is a reference store into A through the writing mutator's own SATB barrier.
+pub const SATB2_OPS: [&str; 3] = ["A.f<-null", "A.g<-null", "A.f<-G"];
+
+/// Pseudo op of mutator 1 (anywhere in its list; it acts at the end of its program): the mutator
+/// is destroyed (`memory_manager::destroy_mutator`, on its own thread, while the marking is still in
+/// progress) instead of staying bound until the final-mark pause: what its barrier has buffered
+/// must reach the collector through the flush of the destroy path.
+pub const SATB2_DESTROY: u8 = 15;
+
+/// (field index, target: 0 = null, 'G')
+fn satb2_op(code: u8) -> (usize, Option<char>) {
+    match code {
+        0 => (0, None),
+        1 => (1, None),
+        2 => (0, Some('G')),
+        _ => machinery_failure(&format!("satb2 scenario: unknown op code {}", code)),
+    }
+}
+
+pub fn satb2_prog_name(p: &[u8]) -> String {
+    let side = |m: u8| -> String {
+        let ops: Vec<&str> = p.iter().filter(|o| **o / 16 == m).map(|o| if *o % 16 == SATB2_DESTROY { "destroy" } else { SATB2_OPS.get((*o % 16) as usize).copied().unwrap_or("?") }).collect();
+        if ops.is_empty() { "-".to_string() } else { ops.join(";") }
+    };
+    format!("m0:{}|m1:{}", side(0), side(1))
+}
+
+/// The programs of scenario `satb2`: (ops of mutator 0, ops of mutator 1), encoded as `Job::prog`.
+/// `level` 0: the quick set; 1: the thorough set (a superset).
+pub fn satb2_programs(level: usize) -> Vec<Vec<u8>> {
+    let enc = |m0: &[u8], m1: &[u8]| -> Vec<u8> { m0.iter().copied().chain(m1.iter().map(|o| 16 + *o)).collect() };
+    let mut out = vec![
+        enc(&[0], &[1]),    // different fields
+        enc(&[0], &[0]),    // the same field
+        enc(&[1], &[0]),    // different fields, roles swapped
+        enc(&[0, 1], &[1]), // mutator 0 comes back to A for a second field
+        enc(&[0], &[1, 0]), // mutator 1 does
+        enc(&[2], &[1]),    // A.f <- G overwrites B while the other mutator cuts the old path to G
+        enc(&[0], &[1, SATB2_DESTROY]), // mutator 1 is destroyed when its program has ended
+    ];
+    if level >= 1 {
+        out.push(enc(&[0, 1], &[1, 0]));
+        out.push(enc(&[1], &[2]));
+        out.push(enc(&[2, 1], &[1]));
+        out.push(enc(&[1, 0], &[0, 1]));
+        out.push(enc(&[1], &[0, SATB2_DESTROY]));
+        out.push(enc(&[0, 1], &[1, 0, SATB2_DESTROY]));
+    }
+    out
+}
+
+/// Scenario `satb2`: which of the two programs have ended (the last one closes the exploration
+/// window).  Only touched by the thread that holds the baton.
+static SATB2: Mutex<Satb2State> = Mutex::new(Satb2State { done: [false; 2], in_op: [false; 2], overlap: false, snapshot: Vec::new(), marked_at_close: 0 });
+
+struct Satb2State {
+    done: [bool; 2],
+    in_op: [bool; 2],
+    /// an op of one mutator began while an op of the other was in progress
+    overlap: bool,
+    /// addresses of the snapshot objects
+    snapshot: Vec<usize>,
+    /// how many of them were marked when the second program ended
+    marked_at_close: usize,
+}
+
+fn satb2_marked(addrs: &[usize]) -> usize {
+    addrs.iter().filter(|a| mmtk::util::ObjectReference::from_raw_address(unsafe { mmtk::util::Address::from_usize(**a) }).unwrap().is_reachable()).count()
+}
+
+/// One reference store of scenario `satb2` on the calling baton thread: the plan's pre-write
+/// barrier of `mu`, then the store (a visible operation at the slot's address).
+fn satb2_store(mu: usize, src: usize, slot: usize, target: usize) {
+    use mmtk::util::{Address, ObjectReference};
+    let so = ObjectReference::from_raw_address(unsafe { Address::from_usize(src) }).unwrap();
+    let sl = unsafe { Address::from_usize(slot) };
+    let tg = ObjectReference::from_raw_address(unsafe { Address::from_usize(target) });
+    let mu = unsafe { &mut *(mu as *mut mmtk::Mutator<VerifVM>) };
+    mmtk::memory_manager::object_reference_write_pre(mu, so, sl, tg);
+    rt::sched_point(rt::Kind::AtomicStore, slot);
+    vm::write_word(sl, target);
+}
+
+/// The program of mutator `m` of scenario `satb2` on the calling baton thread.  `ops` = (field
+/// slot address, target address).
+fn satb2_run_program(inst: &Inst, m: usize, mu: usize, a: usize, ops: &[(u8, usize, usize)], destroy: bool) {
+    for (k, (code, slot, target)) in ops.iter().enumerate() {
+        baton::step(10 + 16 * m as u32 + *code as u32);
+        rt::event("satb2_op_begin", m, k);
+        {
+            let mut d = SATB2.lock().unwrap_or_else(|p| p.into_inner());
+            if d.in_op[1 - m] {
+                d.overlap = true;
+            }
+            d.in_op[m] = true;
+        }
+        satb2_store(mu, a, *slot, *target);
+        SATB2.lock().unwrap_or_else(|p| p.into_inner()).in_op[m] = false;
+        rt::event("satb2_op_end", m, k);
+    }
+    if destroy {
+        // what `World::destroy` does, on this mutator's own thread
+        baton::step(8);
+        rt::event("satb2_destroy", m, 0);
+        let rec = vm::with_state(|s| {
+            let i = s.mutators.iter().position(|x| x.tls == vm::MUTATOR_TLS_BASE + m).unwrap_or_else(|| machinery_failure("satb2 scenario: destroy of an unbound mutator"));
+            s.mutators.remove(i)
+        });
+        if rec.mutator as usize != mu {
+            machinery_failure("satb2 scenario: mutator record mismatch");
+        }
+        unsafe {
+            mmtk::memory_manager::destroy_mutator(&mut *rec.mutator);
+            drop(Box::from_raw(rec.mutator));
+            drop(Box::from_raw(rec.roots));
+        }
+    }
+    baton::step(9);
+    let mut d = SATB2.lock().unwrap_or_else(|p| p.into_inner());
+    d.done[m] = true;
+    if d.done[0] && d.done[1] {
+        d.marked_at_close = satb2_marked(&d.snapshot);
+        rt::event("satb2_programs_done", m, 0);
+        inst.set_explore(false);
+    }
 }
 
 // ---------------------------------------------------------------------------------------------
@@ -1344,6 +1494,208 @@ impl Child {
         None
     }
 
+
+    /// Scenario `satb2` (C12, two mutators).  Returns the first failure.
+    fn satb2_execution(&mut self, job: &Job) -> Option<Fail> {
+        use crate::vm::{field_addr, obj_id, obj_nrefs, obj_size, read_word};
+        const SZ: usize = 1024; // 4 Immix lines, as in `satb`
+        const LOS: usize = 1 << 20;
+        macro_rules! tri {
+            ($e:expr) => {
+                match $e {
+                    Ok(v) => v,
+                    Err((s, m)) => return Some((format!("heap:{}", s), m)),
+                }
+            };
+        }
+        struct PointsOff;
+        impl Drop for PointsOff {
+            fn drop(&mut self) {
+                vm::SCAN_SLOT_POINTS.store(false, std::sync::atomic::Ordering::SeqCst);
+            }
+        }
+        let _points_off = PointsOff;
+        let inst = self.inst.clone();
+        let gcs = || vm::with_state(|s| s.gc_count);
+        let in_marking = |w: &World| -> bool { w.mmtk.get_plan().concurrent().map(|c| c.concurrent_work_in_progress()).unwrap_or(false) };
+        let tid = 1 + self.cfg.workers;
+        let w = &mut self.world;
+        w.expected_weak_calls = None;
+        vm::with_state(|s| s.expected_stages.clear());
+        // 1. the graph (all of it built by mutator 0): root0 -> A, A.f -> B -> C, A.g -> G
+        let a = tri!(w.alloc_obj(0, 0, SZ, 2, 8, Sem::Default, false)).unwrap();
+        let b = tri!(w.alloc_obj(0, 1, SZ, 1, 8, Sem::Default, false)).unwrap();
+        let c = tri!(w.alloc_obj(0, 2, SZ, 1, 8, Sem::Default, false)).unwrap();
+        let g = tri!(w.alloc_obj(0, 3, SZ, 1, 8, Sem::Default, false)).unwrap();
+        w.write_field(0, a, 0, Some(b));
+        w.write_field(0, b, 0, Some(c));
+        w.write_field(0, a, 1, Some(g));
+        w.drop_root(0, 1);
+        w.drop_root(0, 2);
+        w.drop_root(0, 3);
+        let ids: Vec<(char, u64)> = vec![('A', a), ('B', b), ('C', c), ('G', g)];
+        let addrs: Vec<(char, usize)> = ids.iter().map(|(ch, id)| (*ch, w.shadow.objs[id].addr)).collect();
+        let addr_of = |ch: char| addrs.iter().find(|x| x.0 == ch).map(|x| x.1).unwrap();
+        for (_, addr) in &addrs {
+            use mmtk::util::metadata::MetadataSpec;
+            use mmtk::vm::ObjectModel;
+            if addr % 256 != 0 {
+                machinery_failure(&format!("satb2 scenario: object at {:#x} is not line-aligned (the scenario assumes that no two objects share a metadata byte)", addr));
+            }
+            for spec in [*VerifVM::LOCAL_MARK_BIT_SPEC, *VerifVM::GLOBAL_LOG_BIT_SPEC] {
+                if let MetadataSpec::OnSide(sd) = spec {
+                    let m = mmtk::util::verif::c17::side_meta_address(&sd, unsafe { mmtk::util::Address::from_usize(*addr) }).as_usize();
+                    inst.arm_range(m, m + 1);
+                }
+            }
+        }
+        // 2. the initial-mark pause: allocate (garbage) large objects until a collection has run
+        SATB_HOLD.store(true, std::sync::atomic::Ordering::SeqCst);
+        let before = gcs();
+        let mut n = 0;
+        while gcs() == before {
+            tri!(w.alloc_obj(0, 7, LOS, 0, 8, Sem::Default, false));
+            w.drop_root(0, 7);
+            n += 1;
+            if n > 16 {
+                machinery_failure("satb2 scenario: 16 MiB of allocation did not trigger a collection");
+            }
+        }
+        if gcs() != before + 1 || !in_marking(w) {
+            machinery_failure(&format!("satb2 scenario: the allocation burst caused {} pause(s), concurrent marking in progress = {}: expected the initial-mark pause", gcs() - before, in_marking(w)));
+        }
+        SATB_HOLD.store(false, std::sync::atomic::Ordering::SeqCst);
+        rt::event("satb_marking_started", n, 0);
+        // 3. the two programs, racing with each other and with the concurrent marking packets.
+        //    The reference fields of A are visible locations now: the stores of the programs and
+        //    the loads of whoever scans A (the barrier of either mutator, the marker).
+        let a_addr = addr_of('A');
+        let a_ref = mmtk::util::ObjectReference::from_raw_address(unsafe { mmtk::util::Address::from_usize(a_addr) }).unwrap();
+        let slots: Vec<usize> = (0..2).map(|i| field_addr(a_ref, i).as_usize()).collect();
+        // (SATB2_NO_FIELD_POINTS: debugging aid, to see what the field points contribute)
+        if std::env::var("SATB2_NO_FIELD_POINTS").is_err() {
+            inst.arm_range(slots[0], slots[1] + 8);
+            vm::SCAN_SLOT_POINTS.store(true, std::sync::atomic::Ordering::SeqCst);
+        }
+        let mu_of = |m: usize| -> usize {
+            vm::with_state(|s| s.mutators.iter().find(|x| x.tls == vm::MUTATOR_TLS_BASE + m).map(|x| x.mutator as usize)).unwrap_or_else(|| machinery_failure("satb2 scenario: the child needs 2 bound mutators"))
+        };
+        let ops_of = |m: u8| -> Vec<(u8, usize, usize)> {
+            job.prog.iter().filter(|o| **o / 16 == m && **o % 16 != SATB2_DESTROY).map(|o| {
+                let (field, target) = satb2_op(*o % 16);
+                (*o % 16, slots[field], target.map(&addr_of).unwrap_or(0))
+            }).collect()
+        };
+        let destroy1 = job.prog.contains(&(16 + SATB2_DESTROY));
+        if job.prog.contains(&SATB2_DESTROY) {
+            machinery_failure("satb2 scenario: only mutator 1 can be destroyed (mutator 0 drives the pauses)");
+        }
+        let (p0, p1) = (ops_of(0), ops_of(1));
+        let (mu0, mu1) = (mu_of(0), mu_of(1));
+        let snapshot: Vec<usize> = addrs.iter().map(|x| x.1).collect();
+        let marked_at_start = satb2_marked(&snapshot);
+        *SATB2.lock().unwrap_or_else(|p| p.into_inner()) = Satb2State { done: [false; 2], in_op: [false; 2], overlap: false, snapshot, marked_at_close: 0 };
+        let cycle_pauses = gcs();
+        let inst1 = self.inst.clone();
+        let h = self.inst.spawn(tid, "mutator-1", move || {
+            satb2_run_program(&inst1, 1, mu1, a_addr, &p1, destroy1);
+        });
+        self.inst.set_explore(true);
+        satb2_run_program(&inst, 0, mu0, a_addr, &p0, false);
+        // mutator 0 is at a safepoint; wait (logically) until mutator 1 has finished its program
+        // (its thread ends: from here on the harness thread plays both mutators again) and the
+        // marking is complete
+        self.inst.quiesce();
+        let _ = h.join();
+        vm::SCAN_SLOT_POINTS.store(false, std::sync::atomic::Ordering::SeqCst);
+        if destroy1 {
+            // mutator 1 is gone (the pauses that follow see mutator 0 only); `execute` binds a new
+            // one when the execution is over
+            w.shadow.roots[1] = None;
+        }
+        let (overlap, marked_at_close) = {
+            let d = SATB2.lock().unwrap_or_else(|p| p.into_inner());
+            if !(d.done[0] && d.done[1]) {
+                machinery_failure(&format!("satb2 scenario: programs not finished at quiescence: {:?}", d.done));
+            }
+            (d.overlap, d.marked_at_close)
+        };
+        if gcs() != cycle_pauses || !in_marking(w) {
+            machinery_failure("satb2 scenario: the cycle ended while the programs ran (they do not allocate)");
+        }
+        *SATB_OUT.lock().unwrap() = format!("marked_at_start={};marked_when_programs_ended={};overlap={}", marked_at_start, marked_at_close, overlap as u8);
+        // the shadow heap learns what the fields of A hold now (with racing stores to one field:
+        // whichever came last)
+        for (i, slot) in slots.iter().enumerate() {
+            let v = read_word(unsafe { mmtk::util::Address::from_usize(*slot) });
+            let id = if v == 0 { None } else { Some(addrs.iter().zip(ids.iter()).find(|(x, _)| x.1 == v).map(|(_, y)| y.1).unwrap_or_else(|| machinery_failure(&format!("satb2 scenario: field {} of A holds {:#x}, which no program stored", i, v)))) };
+            w.shadow.objs.get_mut(&a).unwrap().fields[i] = id;
+        }
+        // the snapshot: every object that was reachable when marking started must survive this
+        // cycle untouched (SATB)
+        let snap: Vec<(char, usize, Vec<usize>)> = addrs.iter().map(|(ch, addr)| {
+            let words: Vec<usize> = (1..SZ / 8).map(|k| read_word(unsafe { mmtk::util::Address::from_usize(addr + 8 * k) })).collect();
+            (*ch, *addr, words)
+        }).collect();
+        // 4. the final-mark pause: the next poll (of mutator 0; the pause visits both mutators, so
+        //    what mutator 1's barrier has buffered reaches the collector)
+        let before = gcs();
+        let mut n = 0;
+        while gcs() == before {
+            tri!(w.alloc_obj(0, 7, 64 << 10, 0, 8, Sem::Default, false));
+            w.drop_root(0, 7);
+            n += 1;
+            if n > 64 {
+                machinery_failure("satb2 scenario: no final-mark pause after the concurrent marking had finished");
+            }
+        }
+        if in_marking(w) {
+            machinery_failure("satb2 scenario: concurrent marking still in progress after the pause that should have been the final mark");
+        }
+        rt::event("satb_final_mark_done", n, 1);
+        let check = |when: &str| -> Option<Fail> {
+            for (ch, addr, words) in &snap {
+                for (k, wv) in words.iter().enumerate() {
+                    let now = read_word(unsafe { mmtk::util::Address::from_usize(addr + 8 * (k + 1)) });
+                    if now != *wv {
+                        let o = mmtk::util::ObjectReference::from_raw_address(unsafe { mmtk::util::Address::from_usize(*addr) }).unwrap();
+                        return Some(("satb:snapshot_object_damaged".into(), format!("{}: object {} at {:#x} (reachable when marking started) changed: word {} was {:#x}, is {:#x} (id word now {}, size {}, nrefs {})", when, ch, addr, k + 1, wv, now, obj_id(o), obj_size(o), obj_nrefs(o))));
+                    }
+                }
+                #[cfg(feature = "vo_bit")]
+                {
+                    if std::env::var("SATB_NO_VO").is_err() && !mmtk::memory_manager::is_mmtk_object(unsafe { mmtk::util::Address::from_usize(*addr) }).is_some() {
+                        return Some(("satb:snapshot_object_not_an_object".into(), format!("{}: object {} at {:#x} is no longer an MMTk object", when, ch, addr)));
+                    }
+                }
+            }
+            None
+        };
+        if let Some(f) = check("right after the final-mark pause") {
+            return Some(f);
+        }
+        // 5. reuse what the cycle freed: one block's worth of line-sized objects
+        let before = gcs();
+        for _ in 0..160 {
+            tri!(w.alloc_obj(0, 6, 256, 0, 8, Sem::Default, false));
+            w.drop_root(0, 6);
+        }
+        if gcs() != before {
+            machinery_failure("satb2 scenario: the line-reusing burst triggered a collection");
+        }
+        if let Some(f) = check("after the allocation burst that reuses the lines freed by the cycle") {
+            return Some(f);
+        }
+        // 6. a full collection (the reachable part is verified against the shadow heap), then
+        //    everything is dropped and collected: the next execution starts from an empty heap
+        tri!(w.gc(0, true));
+        for r in 0..8 {
+            w.drop_root(0, r);
+        }
+        tri!(w.gc(0, true));
+        None
+    }
+
     /// Scenario `forkreq`.  Returns the first failure.
     fn fork_and_request(&mut self, heap_checks: &mut Vec<Result<(), crate::shadowvm::Fail>>) -> Option<Fail> {
         let workers = self.cfg.workers;
@@ -1491,7 +1843,7 @@ impl Child {
                 }),
             });
         }
-        if job.kind == Kind::Satb {
+        if job.kind == Kind::Satb || job.kind == Kind::Satb2 {
             arm.start_closed = true;
         }
         self.inst.begin_execution(prefix, arm, HORIZON, LIVELOCK);
@@ -1519,6 +1871,16 @@ impl Child {
                 }
                 early = self.satb_execution(job);
                 self.inst.quiesce();
+            }
+            Kind::Satb2 => {
+                if !self.cfg.bare || self.cfg.plan != "ConcurrentImmix" || self.cfg.mutators < 2 {
+                    machinery_failure("scheduler scenarios: satb2 needs a bare ConcurrentImmix child with 2 mutators");
+                }
+                early = self.satb2_execution(job);
+                self.inst.quiesce();
+                if !self.world.is_bound(1) {
+                    self.world.bind(1);
+                }
             }
             Kind::Req2 => {
                 if self.cfg.mutators < 2 {
@@ -1595,7 +1957,7 @@ impl Child {
         // ---- oracle
         let mut failure: Option<Fail> = early;
         let mut facts = Facts::default();
-        if failure.is_none() && job.kind != Kind::Satb {
+        if failure.is_none() && job.kind != Kind::Satb && job.kind != Kind::Satb2 {
             match analyse(&info.events, workers, job) {
                 Ok(f) => facts = f,
                 Err(e) => failure = Some(e),
@@ -1680,8 +2042,8 @@ impl Child {
         } else {
             outcome
         };
-        let outcome = if job.kind == Kind::Satb { std::mem::take(&mut *SATB_OUT.lock().unwrap()) } else { format!("{}{}", outcome, race_outcome) };
-        let nontrivial = if job.kind.is_race() { race_nontrivial } else if job.kind == Kind::Satb { info.preemptions > 0 && !outcome.contains("cycle_ended") } else { info.preemptions > 0 || facts.harness_runs.iter().map(|(_, w)| *w).collect::<std::collections::BTreeSet<_>>().len() > 1 };
+        let outcome = if job.kind == Kind::Satb || job.kind == Kind::Satb2 { std::mem::take(&mut *SATB_OUT.lock().unwrap()) } else { format!("{}{}", outcome, race_outcome) };
+        let nontrivial = if job.kind.is_race() { race_nontrivial } else if job.kind == Kind::Satb2 { outcome.contains("overlap=1") } else if job.kind == Kind::Satb { info.preemptions > 0 && !outcome.contains("cycle_ended") } else { info.preemptions > 0 || facts.harness_runs.iter().map(|(_, w)| *w).collect::<std::collections::BTreeSet<_>>().len() > 1 };
         let violation = failure.map(|(s, m)| (scenario_sig(&s, job), m));
         (info, Verdict { outcome, violation, nontrivial })
     }
